@@ -416,6 +416,11 @@ type fx struct {
 	candFail   map[CandKey]bool
 	commaOk    map[Term]Term // pointer results of comma-ok type assertions -> their ok flag
 	strFrom    map[Term]strOrigin // strings produced by string(bytes): the byte memory and address they were copied from
+	// opaque specification functions: applications already instantiated, lemmas used, nesting flag, reveal-all (lemma proofs)
+	sfSeen      map[string]bool
+	sfUsed      map[string]*SpecLemma
+	sfInLemma   int
+	sfRevealAll bool
 }
 
 type strOrigin struct {
